@@ -245,6 +245,20 @@ CLAIMS = {
     note=("Weaker than the other model-checked properties: TLC contributes the exhaustive option product; the dtype case "
           "analysis of _dtypes is not transcribed into TLA+, both sides of the comparison are observations of the code."),
     technique="TLA+ spec enumerating file classes x read options (TLC); prediction-versus-read comparison on the real code"),
+ "C08": dict(
+    level="model_checking",
+    text=("spec/Partition.tla models the routing of partition_on (chunks by row-group offsets, grouping by key tuple, one "
+          "part file per (chunk, key), rows with a missing key dropped) with the contract RowsRoutedToTheirKeyDirectory / "
+          "MultisetPreserved / NoEmptyFile, and the typed-path case analysis (text class of a rendered value, kind restored "
+          "with and without metadata). TLC checks the invariants over every assignment of keys to rows x offset list and "
+          "exports each with its expected directory tree; the real write is compared file by file (independent reader) "
+          "and the read-back for rows, partition column names, values and value kinds (int, float, bool, datetime, text, "
+          "numeric-looking text, categorical with an unused category) in hive and drill layouts."),
+    design_ref="DESIGN.md section 5 C08, section 10",
+    note=("Bounds: 4-5 rows, keys {missing,1,2,3}, one and two partition columns, 3-5 offset lists; kinds rotated over the "
+          "cases in quick, every kind per case in thorough. Drill: the directory text is accepted in val_to_num's reading. "
+          "A write that raises because a row group holds only rows with missing keys is accepted (pandas groupby)."),
+    technique="TLA+ spec of partition routing + typed-path case analysis; TLC enumeration; spec->code replay"),
 }
 
 NOT_BUILT = "not built yet (construction order in DESIGN.md section 9)"
